@@ -661,6 +661,10 @@ class ObjEvaluator(Evaluator):
         if isinstance(op, (ast.In, ast.NotIn)) and isinstance(b, (list, tuple, dict)) and isinstance(a, str):
             r = a in list(b)
             return r if isinstance(op, ast.In) else not r
+        if isinstance(op, (ast.In, ast.NotIn)) and isinstance(b, (dict, list, tuple)) and isinstance(a, (Sym, SStr)) \
+                and all(isinstance(k_, str) for k_ in b):
+            self.__dict__.setdefault("literals_met", []).extend(k_ for k_ in b if k_ not in self.__dict__.get("literals_met", []))
+            return isinstance(op, ast.NotIn)          # the generic text is none of the listed constants (see method_call)
         if isinstance(op, (ast.In, ast.NotIn)) and isinstance(b, dict):
             k = dict_key(a)
             try:
@@ -873,6 +877,20 @@ class ObjEvaluator(Evaluator):
         return Evaluator.builtin(self, name, args, kwargs, node)
 
     def method_call(self, base, attr, args, kwargs, node):
+        if isinstance(base, dict) and attr in ("get", "pop", "setdefault", "__contains__") and args and isinstance(args[0], (Sym, SStr)):
+            # a look-up of an unknown text among constant keys: the generic text is none of them (the answer given here); the
+            # keys are the special values of that text -- recorded, so that the rule can add one scenario per key
+            keys = [k_ for k_ in base if isinstance(k_, str)]
+            self.__dict__.setdefault("literals_met", []).extend(k_ for k_ in keys if k_ not in self.__dict__["literals_met"])
+            if attr == "__contains__":
+                return False
+            if attr == "get":
+                return args[1] if len(args) == 2 else None
+            if attr == "pop":
+                if len(args) == 2:
+                    return args[1]
+                raise PyRaise("KeyError", node, okey(args[0]))
+            raise AnalysisError("E7: setdefault with a key that is not constant (line %d)" % node.lineno)
         if isinstance(base, dict):
             if attr == "update" and len(args) <= 1:
                 if args:
